@@ -252,3 +252,47 @@ MUTANTS["C08"] = [
     M("twin-else-continue", TKP, "                self._next()\n\n                continue\n\n            if self._is_valid():\n                tokens.append(self._parse_token())",
       "                self._next()\n            else:\n                tokens.append(self._parse_token())", twin=True),
 ]
+
+ARG = "src/clikit/api/args/args.py"
+
+MUTANTS["C01"] = [
+    M("f2-regression", ARG, "            return self._arguments[argument.name]\n", "            return self._arguments[name]\n", expect="C01-R1"),
+    M("f17-regression", ARG, "        return self._fmt.get_option(name).long_name in self._options\n", "        return name in self._options\n", expect="C01-R1"),
+    M("option-raw-key", ARG, "        if option.long_name in self._options:\n            return self._options[option.long_name]\n", "        if name in self._options:\n            return self._options[name]\n", expect="C01-R1"),
+    M("set-option-unparsed", ARG, "        elif option.accepts_value():\n            value = option.parse(value)\n", "        elif option.accepts_value():\n            pass\n", expect="C01-R2"),
+    M("set-argument-unparsed-multi", ARG, "            for i, v in enumerate(value):\n                value[i] = argument.parse(v)\n        else:", "            pass\n        else:", expect="C01-R2"),
+    M("separator-flag-dropped-long", DAP, '            elif parse_options and token.find("--") == 0:', '            elif token.find("--") == 0:', expect="C01-R3"),
+    M("separator-flag-reset", DAP, "                self._parse_argument(token, fmt, lenient)\n\n    def _insert_missing", "                self._parse_argument(token, fmt, lenient)\n                parse_options = True\n\n    def _insert_missing", expect="C01-R3"),
+    M("multi-value-prepend", DAP, "            self._options[name].append(value)", "            self._options[name].insert(0, value)", expect="C01-R4"),
+    M("arguments-sorted", DAP, "        actual_values = self._flatten(self._arguments.values())", "        actual_values = sorted(self._flatten(self._arguments.values()))", expect="C01-R4"),
+    M("options-default-differs", ARG, "                    default = False\n                    if option.accepts_value():\n                        default = option.default\n", "                    default = None\n                    if option.accepts_value():\n                        default = option.default\n", expect="C01-R5"),
+    M("pushback-at-end", DAP, "                if value and value.startswith(\"-\"):\n                    tokens.insert(0, value)\n                    value = None\n\n                self._add_long_option(name, value, tokens, fmt, lenient)",
+      "                if value and value.startswith(\"-\"):\n                    tokens.append(value)\n                    value = None\n\n                self._add_long_option(name, value, tokens, fmt, lenient)", expect="C01-R4"),
+    M("twin-key-local", ARG, "        if option.long_name in self._options:\n            return self._options[option.long_name]\n", "        key = option.long_name\n        if key in self._options:\n            return self._options[key]\n", twin=True),
+    M("twin-key-helper", ARG, "        if argument.name in self._arguments:\n            return self._arguments[argument.name]\n", "        if self._fmt.get_argument(name).name in self._arguments:\n            return self._arguments[self._fmt.get_argument(name).name]\n", twin=True),
+]
+
+AFM = "src/clikit/api/args/format/args_format.py"
+AFB = "src/clikit/api/args/format/args_format_builder.py"
+USR = "src/clikit/utils/string.py"
+
+MUTANTS["C02"] = [
+    M("handler-narrowed", DAP, "        except (CannotParseArgsException, NoSuchOptionException):\n            if not lenient:\n                raise\n",
+      "        except CannotParseArgsException:\n            if not lenient:\n                raise\n", expect="C02-R2"),
+    M("lenient-picks-default", DAP, "                value = option.default if option.is_value_optional() else True",
+      "                value = option.default if (option.is_value_optional() or lenient) else True", expect="C02-R1"),
+    M("lenient-skips-silently", DAP, "        if missing_arguments and not lenient:\n            raise CannotParseArgsException(",
+      "        if missing_arguments and not lenient:\n            return Args(fmt, args)\n        if False:\n            raise CannotParseArgsException(", expect="C02-R1"),
+    M("raises-runtime-error", DAP, "                raise CannotParseArgsException.option_requires_value(name)", "                raise RuntimeError(\"option requires a value\")", expect="C02-R3"),
+    M("unknown-option-wrong-class", DAP, "        if not fmt.has_option(name):\n            raise NoSuchOptionException(name)\n\n        option = fmt.get_option(name)\n\n        if value is False:",
+      "        if not fmt.has_option(name):\n            raise CannotParseArgsException(name)\n\n        option = fmt.get_option(name)\n\n        if value is False:", expect="C02-R3"),
+    M("f6-regression", USR, "        return int(value)\n    except (TypeError, ValueError):", "        return int(value)\n    except ValueError:", expect="C02-R4"),
+    M("f5-regression", AFM, "            return 0 <= name < len(arguments)", "            return name < len(arguments)", expect="C02-R5"),
+    M("unguarded-get-argument", DAP, "        elif fmt.has_argument(c - 1) and fmt.get_argument(c - 1).is_multi_valued():", "        elif fmt.get_argument(c - 1).is_multi_valued():", expect="C02-R2"),
+    M("set-option-unguarded", DAP, "        for name, value in self._options.items():\n            if fmt.has_option(name):\n                parsed_args.set_option(name, value)\n",
+      "        for name, value in self._options.items():\n            parsed_args.set_option(name, value)\n", expect="C02-R2"),
+    M("converter-raises-typeerror", USR, "    raise ValueError('The value \"{}\" cannot be parsed as boolean.'.format(value))", "    raise TypeError('The value \"{}\" cannot be parsed as boolean.'.format(value))", expect="C02-R4"),
+    M("twin-lenient-return-form", DAP, "        else:\n            if not lenient:\n                raise CannotParseArgsException.too_many_arguments()\n\n    def _parse_long_option",
+      "        else:\n            if lenient:\n                return\n\n            raise CannotParseArgsException.too_many_arguments()\n\n    def _parse_long_option", twin=True),
+    M("twin-chained-bound", AFB, "            return 0 <= name < len(arguments)", "            return name >= 0 and name < len(arguments)", twin=True),
+]
